@@ -218,7 +218,8 @@ impl DbInner {
 		let mut columns = Vec::with_capacity(metadata.columns.len());
 		let mut commit_overlay = Vec::with_capacity(metadata.columns.len());
 		let log = Log::open(options)?;
-		let last_enacted = log.replay_record_id().unwrap_or(2) - 1;
+		// The id comes from the log file unverified, it may be 0.
+		let last_enacted = log.replay_record_id().unwrap_or(2).saturating_sub(1);
 		for c in 0..metadata.columns.len() {
 			let column = Column::open(c as ColId, options, &metadata)?;
 			commit_overlay.push(CommitOverlay::new());
